@@ -9,6 +9,7 @@ import (
 	"os/exec"
 	"path/filepath"
 	"strings"
+	"syscall"
 	"time"
 
 	"verif/sim/spec"
@@ -40,7 +41,7 @@ func tail(s string, n int) string {
 	return s
 }
 
-func (b *Build) execInfo(variant string, r *spec.Run, dir string, timeout time.Duration) (*spec.Result, execInfo, error) {
+func (b *Build) execInfo(variant string, r *spec.Run, dir string, timeout time.Duration, extraEnv ...string) (*spec.Result, execInfo, error) {
 	var info execInfo
 	bin := b.Bins[variant]
 	if bin == "" {
@@ -62,6 +63,7 @@ func (b *Build) execInfo(variant string, r *spec.Run, dir string, timeout time.D
 	defer cancel()
 	cmd := exec.CommandContext(ctx, bin, "run", in, out, b.Repo)
 	cmd.Dir = dir
+	cmd.SysProcAttr = &syscall.SysProcAttr{Pdeathsig: syscall.SIGKILL}
 	env := []string{}
 	for _, kv := range os.Environ() {
 		if strings.HasPrefix(kv, "GORACE=") || strings.HasPrefix(kv, "GOMAXPROCS=") || strings.HasPrefix(kv, "GOGC=") || strings.HasPrefix(kv, "GOTRACEBACK=") {
@@ -70,6 +72,7 @@ func (b *Build) execInfo(variant string, r *spec.Run, dir string, timeout time.D
 		env = append(env, kv)
 	}
 	env = append(env, "GORACE=halt_on_error=0 history_size=7 log_path="+filepath.Join(dir, "race"), "GOTRACEBACK=all")
+	env = append(env, extraEnv...)
 	cmd.Env = env
 	var stderr bytes.Buffer
 	cmd.Stderr = &stderr
